@@ -504,6 +504,9 @@ impl<'t> Gen<'t> {
 pub fn gen_input(t: &mut Tape) -> Vec<u8> {
     let n = t.weighted(&[2, 3, 3, 3, 2, 2, 1, 1, 1]);
     let mut out: Vec<u8> = Vec::new();
+    // a text typed or saved with CR LF line ends (the carriage return is the
+    // last character of the line as far as this interpreter is concerned)
+    let crlf = t.chance(1, 8);
     for i in 0..n {
         match t.weighted(&[6, 2, 3, 1, 1, 1, 2, 1]) {
             0 => out.extend_from_slice(format!("in{}-{}", i, t.pick(WORDS)).as_bytes()),
@@ -546,6 +549,9 @@ pub fn gen_input(t: &mut Tape) -> Vec<u8> {
             }
         }
         if i + 1 < n || !t.chance(1, 4) {
+            if crlf || t.chance(1, 16) {
+                out.push(b'\r');
+            }
             out.push(b'\n');
         }
     }
